@@ -248,6 +248,48 @@ def real_children(chk, n):
             chk.coverage["traces_validated_against_impl"] += 1
 
 
+def names_differing_in_case(chk):
+    """Task names are case sensitive (the grammar has both cases): `Prep` and `prep` are two experiments.  A recorded version
+    of one must not stand in for the other -- the dependent of the one that never ran is handed a directory that exists and
+    that the dependency wrote in THIS invocation.  Two invocations: `cond run //:Prep`, then `cond run //:use` (depends on
+    //:prep).  (Seed C07/i: the per-task index queries compared names without regard to case.)"""
+    files = {"COND": 'run_experiment(name="Prep", run="echo big > $COND_OUT/f")\n'
+                     'run_experiment(name="prep", run="echo small > $COND_OUT/f")\n'
+                     'run_command(name="use", run="echo $COND_DEPS > $COND_OUT/deps; cat $COND_DEPS/f > $COND_OUT/got", deps=[":prep"])\n'}
+    root = implrun.make_project(files)
+    r1 = implrun.run_cond(["run", "//:Prep"], root, timeout=30)
+    w1 = implrun.run_cond(["where", "//:prep"], root, timeout=30)
+    r2 = implrun.run_cond(["run", "//:use"], root, timeout=30)
+    chk.coverage["evaluations"] += 3
+    co = os.path.join(root, "cond-out")
+    rows = implrun.index_rows(root)
+    problems = []
+    if r1.code != 0:
+        problems.append("harness: cond run //:Prep failed: %r" % (r1,))
+    else:
+        if w1.code == 0 and w1.out.strip():
+            problems.append("`cond where //:prep` reports %r although //:prep has never run" % w1.out.strip())
+        lower = [d for d in (os.listdir(co) if os.path.isdir(co) else []) if d.startswith("prep.task.")]
+        deps_file = os.path.join(co, "use.task", "deps")
+        seen = open(deps_file, encoding="utf-8").read().strip() if os.path.exists(deps_file) else None
+        got = os.path.join(co, "use.task", "got")
+        if r2.code != 0:
+            problems.append("cond run //:use exited %s: %s" % (r2.code, implrun.strip_ansi(r2.err)[-200:]))
+        if seen is None or not os.path.isdir(seen):
+            problems.append("//:use got COND_DEPS=%r, which is not an existing directory" % (seen,))
+        elif os.path.basename(seen) not in lower or not [1 for tid, ts, _h, _u in rows if tid == "//:prep" and os.path.basename(seen) == "prep.task.%d" % ts]:
+            problems.append("//:use got COND_DEPS=%r, which is not the recorded output of //:prep (rows %r)" % (seen, [(a, b) for a, b, _c, _d in rows]))
+        elif not os.path.exists(got) or open(got, encoding="utf-8").read().strip() != "small":
+            problems.append("//:use read %r from its dependency instead of what //:prep writes" % (open(got, encoding="utf-8").read().strip() if os.path.exists(got) else None))
+    for msg in problems:
+        chk.violation("impl-violation", "experiments named Prep and prep, `cond run //:Prep` then `cond run //:use` (deps=[':prep']): %s" % msg,
+                      {"input": {"files": files, "commands": [["run", "//:Prep"], ["where", "//:prep"], ["run", "//:use"]]},
+                       "impl_observation": {"rows": [list(r) for r in rows], "cond_out": sorted(os.listdir(co)) if os.path.isdir(co) else None}, "oracle_verdict": msg},
+                      match_key={"real": "names-differing-in-case"}, size=2)
+    if not problems:
+        chk.coverage["traces_validated_against_impl"] += 1
+
+
 def run(tier, seed, replay=None):
     chk = Check("C07", tier, seed)
     chk.build_proofs(MODEL_TARGETS + ["Model/Env.vo"])
@@ -294,6 +336,7 @@ def run(tier, seed, replay=None):
     if chk.coq.model_ok:
         compare_env_model(chk, cc, cw, lc, lw)
     real_children(chk, 4 if tier == "quick" else 40)
+    names_differing_in_case(chk)
     if tier == "thorough":
         chk.run_coqchk()
     return chk.finish()
